@@ -276,3 +276,457 @@ Proof.
   - eapply failfree_not_exn in E; eauto. destruct E; discriminate.
   - eapply failfree_not_exn in E; eauto. destruct E; discriminate.
 Qed.
+
+(* ================================================================ Part 3: the merge command *)
+Lemma upd_same : forall fs p x, p <> devnull -> upd fs p x p = x.
+Proof. intros. unfold upd. destruct (N.eqb p devnull) eqn:Q. - apply N.eqb_eq in Q; contradiction. - rewrite N.eqb_refl; auto. Qed.
+Lemma upd_other : forall fs p x q, q <> p -> upd fs p x q = fs q.
+Proof. intros. unfold upd. destruct (N.eqb p devnull); auto. destruct (N.eqb q p) eqn:Q; auto. apply N.eqb_eq in Q; contradiction. Qed.
+Lemma upd_devnull : forall fs x q, upd fs devnull x q = fs q.
+Proof. reflexivity. Qed.
+
+Section Props.
+  Variable nbk dec dif strat : Type.
+  Variable parse : bytes -> parsed nbk.
+  Variable minimal : nbk.
+  Variable diffnb : nbk -> nbk -> option dif.
+  Variable decide : strat -> nbk -> nbk -> nbk -> dif -> dif -> option (list dec).
+  Variable apply : nbk -> list dec -> option nbk.
+  Variable dconflict : dec -> bool.
+  Variable serialise : nbk -> bytes.
+  Variable dec_chunks : list dec -> list bytes.
+
+  Notation RN := (read_notebook nbk parse minimal).
+  Notation MN := (merge_notebooks nbk dec dif strat diffnb decide apply).
+  Notation LM := (lib_merge nbk dec dif strat diffnb decide apply).
+  Notation MM := (main_merge nbk dec dif strat parse minimal diffnb decide apply dconflict serialise dec_chunks).
+  Notation HAD := (handle_agreed_deletion nbk strat parse minimal).
+  Notation RUN := (run nbk dec dif strat parse minimal diffnb decide apply dconflict serialise dec_chunks).
+  Notation RUND := (run_driver nbk dec dif strat parse minimal diffnb decide apply dconflict serialise dec_chunks).
+  Notation DEN := (denotes nbk parse minimal).
+  Notation RC := (returncode dec dconflict).
+  Notation FULL := (full_output nbk serialise).
+
+  (* ---------------- shapes *)
+  Lemma pre_read : forall p r oe, pre (RN p r oe).
+  Proof.
+    intros. unfold read_notebook. destruct (N.eqb p devnull); [constructor|]. simpl.
+    constructor; auto. constructor. intros fs. simpl.
+    destruct (fs p); try constructor. destruct (parse b); try constructor.
+    destruct oe; try constructor; auto. destruct b; constructor.
+  Qed.
+
+  Lemma pre_lift : forall A (o : option A), pre (lift o).
+  Proof. destruct o; constructor. Qed.
+
+  Lemma pre_merge : forall s b l r, pre (MN s b l r).
+  Proof.
+    intros. unfold merge_notebooks. simpl.
+    repeat (first [ apply pre_tick; [reflexivity|reflexivity|auto|] | apply pre_bind; [apply pre_lift|intros] | constructor ]).
+  Qed.
+
+  Lemma wtail_write_chunks : forall cs p acc, wtail (write_chunks p acc cs).
+  Proof.
+    induction cs; intros; simpl; constructor; auto. constructor. apply IHcs.
+  Qed.
+
+  Lemma wtail_block : forall p cs, wtail (putfs (fun fs => upd fs p (Partial [])) ;;; acc <- write_chunks p [] cs ;; close_w p acc).
+  Proof.
+    intros. simpl. constructor. apply wtail_bind. apply wtail_write_chunks.
+    intros. unfold close_w. simpl. constructor; auto. constructor. constructor.
+  Qed.
+
+  Lemma safe_block : forall p cs, safe (open_w p ;;; acc <- write_chunks p [] cs ;; close_w p acc).
+  Proof.
+    intros. unfold open_w. simpl. apply sf_commit; auto.
+    pose proof (wtail_block p cs) as W. simpl in W. exact W.
+  Qed.
+
+  Lemma wtail_ret : forall A (a : A), wtail (Ret a). Proof. constructor. Qed.
+
+  (* THIS is where the order "serialise, then open" (fact_write_via = WritePath, nbformat serialises first) is used *)
+  Lemma safe_write_merged : forall m o, safe (write_merged nbk serialise m o).
+  Proof.
+    intros. unfold write_merged. simpl. unfold nbformat_write_path. simpl.
+    apply sf_tick; auto. pose proof (safe_block o (nb_chunks (serialise m))) as S. simpl in S. exact S.
+  Qed.
+
+  Lemma safe_stdout : forall m, safe (nbformat_write_stdout nbk serialise m).
+  Proof.
+    intros. unfold nbformat_write_stdout. simpl. apply sf_tick; auto. constructor.
+    destruct (ends_nl (serialise m)); repeat constructor.
+  Qed.
+
+  Lemma safe_deletion : forall c, safe (HAD c).
+  Proof.
+    intros. unfold handle_agreed_deletion.
+    destruct (fact_del_asserts_base && N.eqb (c_base c) devnull); [constructor|].
+    apply pre_bind_safe; [apply pre_read|]. intros _.
+    destruct (fact_deletion_passes_args && c_decisions c); [constructor|].
+    destruct (c_out c); [|constructor]. simpl. constructor. intros fs.
+    simpl. match goal with |- safe (if ?c then _ else _) => destruct c; [|constructor] end.
+    apply sf_commit; auto.
+    destruct (N.eqb p devnull); [constructor|]. destruct (fs p); repeat constructor.
+  Qed.
+
+  Lemma wtail_after : forall n : nat, wtail (Ret n). Proof. constructor. Qed.
+
+  Theorem safe_main : forall c, safe (MM c).
+  Proof.
+    intros. unfold main_merge. apply pre_bind_safe; [repeat constructor|]. intros fs.
+    destruct (negb (forallb (exists_ fs) [c_base c; c_local c; c_remote c])); [constructor|].
+    destruct (N.eqb (c_local c) devnull && N.eqb (c_remote c) devnull).
+    - apply safe_bind_tail; [apply safe_deletion | intros; constructor | intros; constructor].
+    - apply pre_bind_safe; [apply pre_read|]. intros b.
+      apply pre_bind_safe; [apply pre_read|]. intros l.
+      apply pre_bind_safe; [apply pre_read|]. intros r.
+      apply pre_bind_safe; [apply pre_merge|]. intros [m ds].
+      apply safe_bind_tail; [| intros; constructor | intros; constructor].
+      destruct (c_decisions c); destruct (c_out c).
+      + apply safe_block.
+      + constructor.
+      + apply safe_write_merged.
+      + apply safe_stdout.
+  Qed.
+
+  (* no Fail after an effect *)
+  Lemma failfree_write_chunks : forall cs p acc, failfree (write_chunks p acc cs).
+  Proof. induction cs; intros; simpl; repeat constructor. apply IHcs. Qed.
+
+  Lemma failfree_block : forall p cs, failfree (open_w p ;;; acc <- write_chunks p [] cs ;; close_w p acc).
+  Proof.
+    intros. unfold open_w. simpl. repeat constructor. apply failfree_bind. apply failfree_write_chunks.
+    intros. unfold close_w. simpl. repeat constructor.
+  Qed.
+
+  Lemma nf_deletion : forall c, nf (HAD c).
+  Proof.
+    intros. unfold handle_agreed_deletion.
+    destruct (fact_del_asserts_base && N.eqb (c_base c) devnull); [constructor|].
+    apply pre_nf_bind; [apply pre_read|]. intros _.
+    destruct (fact_deletion_passes_args && c_decisions c); [constructor|].
+    destruct (c_out c); [|constructor]. simpl. constructor. intros fs.
+    match goal with |- nf (if ?c then _ else _) => destruct c; [|constructor] end.
+    constructor. destruct (N.eqb p devnull); [constructor|]. destruct (fs p); repeat constructor.
+  Qed.
+
+  Theorem nf_main : forall c, nf (MM c).
+  Proof.
+    intros. unfold main_merge. apply pre_nf_bind; [repeat constructor|]. intros fs.
+    destruct (negb (forallb (exists_ fs) [c_base c; c_local c; c_remote c])); [constructor|].
+    destruct (N.eqb (c_local c) devnull && N.eqb (c_remote c) devnull).
+    - apply nf_bind_ff; [apply nf_deletion | intros; constructor].
+    - apply pre_nf_bind; [apply pre_read|]. intros b.
+      apply pre_nf_bind; [apply pre_read|]. intros l.
+      apply pre_nf_bind; [apply pre_read|]. intros r.
+      apply pre_nf_bind; [apply pre_merge|]. intros [m ds].
+      apply nf_bind_ff; [| intros; constructor].
+      apply failfree_nf.
+      destruct (c_decisions c); destruct (c_out c).
+      + apply failfree_block.
+      + constructor.
+      + unfold write_merged, nbformat_write_path. simpl. constructor.
+        pose proof (failfree_block p (nb_chunks (serialise m))) as S. simpl in S. exact S.
+      + unfold nbformat_write_stdout. simpl. constructor. constructor.
+        destruct (ends_nl (serialise m)); repeat constructor.
+  Qed.
+
+  (* ---------------- what each phase computes (fault-free) *)
+  Lemma read_exec : forall p r oe s res s1, exec None (RN p r oe) s = (res, s1) ->
+    s_fs s1 = s_fs s /\ s_out s1 = s_out s /\ (forall nb, res = Done nb <-> DEN (s_fs s) p oe nb).
+  Proof.
+    intros p r oe s res s1 E. unfold read_notebook in E. unfold denotes.
+    destruct (N.eqb p devnull) eqn:Q.
+    - apply N.eqb_eq in Q. simpl in E. inversion E; subst. repeat split; auto.
+      + intros H; inversion H; auto.
+      + intros [[_ H]|[H _]]; [subst; auto | exfalso; auto].
+    - apply N.eqb_neq in Q. simpl in E.
+      destruct (s_fs s p) eqn:F; simpl in E;
+        [ inversion E; subst; simpl; repeat split; auto; try discriminate;
+          intros [[H _]|[_ [b' [H1 _]]]]; [contradiction|discriminate] | | 
+          inversion E; subst; simpl; repeat split; auto; try discriminate;
+          intros [[H _]|[_ [b' [H1 _]]]]; [contradiction|discriminate] ].
+      destruct (parse b) eqn:P; simpl in E.
+      + inversion E; subst; simpl. repeat split; auto.
+        * intros H; inversion H; subst. right. split; auto. exists b. auto.
+        * intros [[H _]|[_ [b' [H1 H2]]]]; [contradiction|]. inversion H1; subst.
+          destruct H2 as [H2|[H2 _]]; congruence.
+      + destruct oe; simpl in E.
+        * destruct b; simpl in E; inversion E; subst; simpl; repeat split; auto; try discriminate.
+          -- intros H; inversion H; subst. right. split; auto. exists []. split; auto.
+          -- intros [[H _]|[_ [b' [H1 H2]]]]; [contradiction|]. inversion H1; subst.
+             destruct H2 as [H2|[_ [_ [_ H2]]]]; congruence.
+          -- intros [[H _]|[_ [b' [H1 H2]]]]; [contradiction|]. inversion H1; subst.
+             destruct H2 as [H2|[_ [_ [H2 _]]]]; congruence.
+        * inversion E; subst; simpl; repeat split; auto; try discriminate.
+          intros [[H _]|[_ [b' [H1 H2]]]]; [contradiction|]. inversion H1; subst.
+          destruct H2 as [H2|[_ [H2 _]]]; congruence.
+      + inversion E; subst; simpl; repeat split; auto; try discriminate.
+        intros [[H _]|[_ [b' [H1 H2]]]]; [contradiction|]. inversion H1; subst.
+        destruct H2 as [H2|[H2 _]]; congruence.
+  Qed.
+
+  Lemma merge_exec : forall st0 b l r s res s1, exec None (MN st0 b l r) s = (res, s1) ->
+    s_fs s1 = s_fs s /\ s_out s1 = s_out s /\ (forall x, res = Done x <-> LM st0 b l r = Some x).
+  Proof.
+    intros st0 b l r s res s1 E. unfold merge_notebooks in E. unfold lib_merge. simpl in E.
+    destruct (diffnb b l); simpl in E; [|inversion E; subst; simpl; repeat split; auto; discriminate].
+    destruct (diffnb b r); simpl in E; [|inversion E; subst; simpl; repeat split; auto; discriminate].
+    destruct (decide st0 b l r d d0); simpl in E; [|inversion E; subst; simpl; repeat split; auto; discriminate].
+    destruct (apply b l0); simpl in E; [|inversion E; subst; simpl; repeat split; auto; discriminate].
+    inversion E; subst; simpl. repeat split; auto; intros H; inversion H; auto.
+  Qed.
+
+  Lemma write_chunks_exec : forall cs p acc s, exists s1,
+    exec None (write_chunks p acc cs) s = (Done (acc ++ concat cs), s1) /\ s_out s1 = s_out s /\
+    (forall q, q <> p \/ p = devnull -> s_fs s1 q = s_fs s q).
+  Proof.
+    induction cs; intros; simpl.
+    - eexists; split; [rewrite app_nil_r; reflexivity|]. auto.
+    - match goal with |- exists s1, exec None ?pr ?s0 = _ /\ _ => destruct (IHcs p (acc ++ a) s0) as [s1 [E [O F]]] end.
+      exists s1. rewrite app_assoc. split; [exact E|]. split; [rewrite O; reflexivity|].
+      intros q Hq. rewrite F; auto. simpl. destruct Hq as [Hq|Hq]; [apply upd_other; auto|subst; apply upd_devnull].
+  Qed.
+
+  Lemma block_exec : forall p cs s, exists s1,
+    exec None (open_w p ;;; acc <- write_chunks p [] cs ;; close_w p acc) s = (Done tt, s1) /\ s_out s1 = s_out s /\
+    (forall q, s_fs s1 q = upd (s_fs s) p (Content (concat cs)) q).
+  Proof.
+    intros. unfold open_w. simpl. rewrite exec_bind.
+    match goal with |- exists s1, match exec None _ ?s0 with _ => _ end = _ /\ _ => destruct (write_chunks_exec cs p [] s0) as [s1 [E [O F]]] end.
+    rewrite E. unfold close_w. simpl. eexists; split; [reflexivity|]. simpl. split; [rewrite O; reflexivity|].
+    intros q. destruct (N.eq_dec p devnull) as [D|D].
+    - subst. rewrite !upd_devnull. rewrite F; auto.
+    - destruct (N.eq_dec q p) as [Q|Q].
+      + subst. rewrite !upd_same; auto.
+      + rewrite !upd_other; auto. rewrite F; auto. simpl. rewrite upd_other; auto.
+  Qed.
+
+  Lemma write_merged_exec : forall m o s, exists s1,
+    exec None (write_merged nbk serialise m o) s = (Done tt, s1) /\ s_out s1 = s_out s /\
+    (forall q, s_fs s1 q = upd (s_fs s) o (Content (FULL m)) q).
+  Proof.
+    intros.
+    destruct (block_exec o (nb_chunks (serialise m))
+                {| s_fs := s_fs s; s_k := S (s_k s); s_trace := ESerialise :: s_trace s; s_out := s_out s; s_fired := s_fired s |})
+      as [s1 [E [O F]]].
+    exists s1. split; [exact E|]. split; auto.
+  Qed.
+
+  Lemma stdout_exec : forall m s, exists s1,
+    exec None (nbformat_write_stdout nbk serialise m) s = (Done tt, s1) /\
+    s_out s1 = rev (nb_chunks (serialise m)) ++ s_out s /\ s_fs s1 = s_fs s.
+  Proof.
+    intros. unfold nbformat_write_stdout, nb_chunks. simpl.
+    destruct (ends_nl (serialise m)); simpl; eexists; split; try reflexivity; simpl; auto.
+  Qed.
+
+  Lemma rc_zero_iff : forall ds, RC ds = 0 <-> filter dconflict ds = [].
+  Proof.
+    intros. unfold returncode. destruct (filter dconflict ds); simpl; split; intros; auto; try discriminate.
+  Qed.
+
+  Lemma had_exec : forall c s s1, exec None (HAD c) s = (Done tt, s1) ->
+    c_decisions c = false -> forall o, c_out c = Some o -> o <> devnull -> s_fs s1 o = Absent.
+  Proof.
+    intros c s s1 E D o HO ND. unfold handle_agreed_deletion in E.
+    destruct (fact_del_asserts_base && N.eqb (c_base c) devnull); [discriminate|].
+    rewrite exec_bind in E.
+    destruct (exec None (RN (c_base c) RBase fact_del_base_on_empty_minimal) s) as [r1 s2] eqn:E1.
+    apply read_exec in E1. destruct E1 as [F1 [O1 _]]. destruct r1; [|discriminate].
+    rewrite D, HO in E. rewrite andb_false_r in E. simpl in E.
+    destruct (exists_ (s_fs s2) o) eqn:X; simpl in E.
+    - assert (Q : N.eqb o devnull = false) by (apply N.eqb_neq; auto). rewrite Q in E.
+      destruct (s_fs s2 o) eqn:Y; simpl in E; try discriminate; inversion E; subst; simpl; apply upd_same; auto.
+    - inversion E; subst. unfold exists_ in X.
+      assert (Q : N.eqb o devnull = false) by (apply N.eqb_neq; auto). rewrite Q in X.
+      destruct (s_fs s1 o); auto; discriminate.
+  Qed.
+
+  Definition out_complete (c : cfg strat) (fs : fsys) (s' : st) (m : nbk) : Prop :=
+    match c_out c with
+    | Some o => (o <> devnull -> s_fs s' o = Content (FULL m)) /\ (forall q, q <> o -> s_fs s' q = fs q)
+    | None => rev (s_out s') = nb_chunks (serialise m) /\ (forall q, s_fs s' q = fs q)
+    end.
+
+  (* FORWARD: readable inputs + the library merge succeeds => the command finishes, returns the conflict-derived
+     code and leaves the complete serialised merge at the output; nothing else changes *)
+  Theorem finish_complete : forall c fs b l r m ds,
+    forallb (exists_ fs) [c_base c; c_local c; c_remote c] = true ->
+    N.eqb (c_local c) devnull && N.eqb (c_remote c) devnull = false ->
+    c_decisions c = false ->
+    DEN fs (c_base c) fact_base_on_empty_minimal b ->
+    DEN fs (c_local c) fact_local_on_empty_minimal l ->
+    DEN fs (c_remote c) fact_remote_on_empty_minimal r ->
+    LM (c_strat c) b l r = Some (m, ds) ->
+    exists s', RUN None c fs = (Exit (RC ds), s') /\ out_complete c fs s' m.
+  Proof.
+    intros c fs b l r m ds HX HD HDec Hb Hl Hr HM.
+    unfold run, main_merge. rewrite exec_bind. simpl (exec None getfs (init fs)). cbv iota beta.
+    simpl (s_fs (init fs)). rewrite HX, HD. simpl negb. cbv iota.
+    rewrite exec_bind.
+    destruct (exec None (RN (c_base c) RBase fact_base_on_empty_minimal) (init fs)) as [r1 s1] eqn:E1.
+    apply read_exec in E1. destruct E1 as [F1 [O1 I1]]. simpl in F1, O1, I1.
+    rewrite (proj2 (I1 b) Hb). rewrite exec_bind.
+    destruct (exec None (RN (c_local c) RLocal fact_local_on_empty_minimal) s1) as [r2 s2] eqn:E2.
+    apply read_exec in E2. destruct E2 as [F2 [O2 I2]]. rewrite F1 in I2.
+    rewrite (proj2 (I2 l) Hl). rewrite exec_bind.
+    destruct (exec None (RN (c_remote c) RRemote fact_remote_on_empty_minimal) s2) as [r3 s3] eqn:E3.
+    apply read_exec in E3. destruct E3 as [F3 [O3 I3]]. rewrite F2, F1 in I3.
+    rewrite (proj2 (I3 r) Hr). rewrite exec_bind.
+    destruct (exec None (MN (c_strat c) b l r) s3) as [r4 s4] eqn:E4.
+    apply merge_exec in E4. destruct E4 as [F4 [O4 I4]].
+    rewrite (proj2 (I4 (m, ds)) HM). cbv iota beta. rewrite exec_bind. rewrite HDec.
+    assert (FS4 : s_fs s4 = fs) by congruence.
+    assert (OS4 : s_out s4 = []) by congruence.
+    unfold out_complete. destruct (c_out c) as [o|].
+    - destruct (write_merged_exec m o s4) as [s5 [E5 [O5 F5]]]. rewrite E5. simpl.
+      eexists; split; [reflexivity|]. split.
+      + intros ND. rewrite F5. apply upd_same; auto.
+      + intros q Q. rewrite F5. rewrite upd_other; auto. rewrite FS4; auto.
+    - destruct (stdout_exec m s4) as [s5 [E5 [O5 F5]]]. rewrite E5. simpl.
+      eexists; split; [reflexivity|]. split.
+      + rewrite O5, OS4, app_nil_r, rev_involutive. auto.
+      + intros q. rewrite F5, FS4. auto.
+  Qed.
+
+  (* BACKWARD: exit status 0, under ANY fault, from ANY file system => either the agreed-deletion case (output absent)
+     or every input was readable, the library merge of them succeeded without conflicted decision, and the complete
+     serialisation of exactly that merge is at the output *)
+  Theorem exit0_complete : forall flt c fs s',
+    RUN flt c fs = (Exit 0, s') ->
+    (c_local c = devnull /\ c_remote c = devnull /\
+       (c_decisions c = false -> forall o, c_out c = Some o -> o <> devnull -> s_fs s' o = Absent))
+    \/
+    (exists b l r m ds,
+       DEN fs (c_base c) fact_base_on_empty_minimal b /\
+       DEN fs (c_local c) fact_local_on_empty_minimal l /\
+       DEN fs (c_remote c) fact_remote_on_empty_minimal r /\
+       LM (c_strat c) b l r = Some (m, ds) /\ filter dconflict ds = [] /\
+       (c_decisions c = false -> out_complete c fs s' m)).
+  Proof.
+    intros flt c fs s' R. unfold run in R.
+    destruct (exec flt (MM c) (init fs)) as [res s] eqn:E.
+    destruct res as [n|k]; [|destruct k; discriminate]. simpl in R. inversion R; subst; clear R.
+    apply exec_done_nofault in E. unfold main_merge in E. rewrite exec_bind in E.
+    simpl (exec None getfs (init fs)) in E. cbv iota beta in E. simpl (s_fs (init fs)) in E.
+    destruct (negb (forallb (exists_ fs) [c_base c; c_local c; c_remote c])); [simpl in E; inversion E|].
+    destruct (N.eqb (c_local c) devnull && N.eqb (c_remote c) devnull) eqn:Y.
+    - left. apply andb_true_iff in Y. destruct Y as [Y1 Y2]. apply N.eqb_eq in Y1, Y2. split; auto. split; auto.
+      rewrite exec_bind in E. destruct (exec None (HAD c) (init fs)) as [r1 s1] eqn:E1.
+      destruct r1 as [[]|]; [|discriminate]. simpl in E. inversion E; subst.
+      intros; eapply had_exec; eauto.
+    - right. rewrite exec_bind in E.
+      destruct (exec None (RN (c_base c) RBase fact_base_on_empty_minimal) (init fs)) as [r1 s1] eqn:E1.
+      apply read_exec in E1. destruct E1 as [F1 [O1 I1]]. simpl in F1, O1, I1.
+      destruct r1 as [b|]; [|discriminate]. rewrite exec_bind in E.
+      destruct (exec None (RN (c_local c) RLocal fact_local_on_empty_minimal) s1) as [r2 s2] eqn:E2.
+      apply read_exec in E2. destruct E2 as [F2 [O2 I2]]. rewrite F1 in I2.
+      destruct r2 as [l|]; [|discriminate]. rewrite exec_bind in E.
+      destruct (exec None (RN (c_remote c) RRemote fact_remote_on_empty_minimal) s2) as [r3 s3] eqn:E3.
+      apply read_exec in E3. destruct E3 as [F3 [O3 I3]]. rewrite F2, F1 in I3.
+      destruct r3 as [r|]; [|discriminate]. rewrite exec_bind in E.
+      destruct (exec None (MN (c_strat c) b l r) s3) as [r4 s4] eqn:E4.
+      apply merge_exec in E4. destruct E4 as [F4 [O4 I4]].
+      destruct r4 as [[m ds]|]; [|discriminate]. cbv iota beta in E. rewrite exec_bind in E.
+      assert (FS4 : s_fs s4 = fs) by congruence.
+      assert (OS4 : s_out s4 = []) by congruence.
+      exists b, l, r, m, ds.
+      split; [apply I1; auto|]. split; [apply I2; auto|]. split; [apply I3; auto|]. split; [apply I4; auto|].
+      unfold out_complete.
+      destruct (c_decisions c); destruct (c_out c) as [o|].
+      + destruct (block_exec o (dec_chunks ds ++ [nl]) s4) as [s5 [E5 _]]. rewrite E5 in E. simpl in E.
+        inversion E. split; [apply rc_zero_iff; auto|discriminate].
+      + simpl in E. inversion E. split; [apply rc_zero_iff; auto|discriminate].
+      + destruct (write_merged_exec m o s4) as [s5 [E5 [O5 F5]]]. rewrite E5 in E. simpl in E.
+        inversion E; subst. split; [apply rc_zero_iff; auto|]. intros _. split.
+        * intros ND. rewrite F5. apply upd_same; auto.
+        * intros q Q. rewrite F5. rewrite upd_other; auto. try rewrite FS4; auto.
+      + destruct (stdout_exec m s4) as [s5 [E5 [O5 F5]]]. rewrite E5 in E. simpl in E.
+        inversion E; subst. split; [apply rc_zero_iff; auto|]. intros _. split.
+        * rewrite O5, OS4, app_nil_r, rev_involutive. auto.
+        * intros q. rewrite F5. try rewrite FS4; auto.
+  Qed.
+
+  (* exit status 0 <=> no conflicted decision (readable inputs, library merge defined) *)
+  Theorem exit0_iff_clean : forall c fs b l r m ds,
+    forallb (exists_ fs) [c_base c; c_local c; c_remote c] = true ->
+    N.eqb (c_local c) devnull && N.eqb (c_remote c) devnull = false ->
+    c_decisions c = false ->
+    DEN fs (c_base c) fact_base_on_empty_minimal b ->
+    DEN fs (c_local c) fact_local_on_empty_minimal l ->
+    DEN fs (c_remote c) fact_remote_on_empty_minimal r ->
+    LM (c_strat c) b l r = Some (m, ds) ->
+    (fst (RUN None c fs) = Exit 0 <-> filter dconflict ds = []).
+  Proof.
+    intros. destruct (finish_complete c fs b l r m ds) as [s' [R _]]; auto.
+    rewrite R. simpl. rewrite <- rc_zero_iff. split; intros Q; [inversion Q; auto | rewrite Q; auto].
+  Qed.
+
+  (* ---------------- faults *)
+  (* success means the fault did not fire, and the run is the fault-free run *)
+  Theorem success_means_no_fault : forall flt c fs s',
+    RUN flt c fs = (Exit 0, s') -> s_fired s' = false /\ RUN None c fs = (Exit 0, s').
+  Proof.
+    intros flt c fs s' R. unfold run in *.
+    destruct (exec flt (MM c) (init fs)) as [res s] eqn:E.
+    destruct res as [n|k]; [|destruct k; discriminate]. simpl in R. inversion R; subst.
+    split; [apply exec_done_not_fired in E; auto|]. apply exec_done_nofault in E. rewrite E. reflexivity.
+  Qed.
+
+  Definition kind_status (k : fkind) : status := match k with KExn => Exit 1 | KIntr => SigInt | KKill => SigKill end.
+
+  (* every fault whose boundary lies within the fault-free run fires, and the process does not report success *)
+  Theorem fault_never_success : forall ft c fs st0 s0,
+    RUN None c fs = (st0, s0) -> 1 <= f_k ft <= s_k s0 ->
+    exists s', RUN (Some ft) c fs = (kind_status (f_kind ft), s') /\ kind_status (f_kind ft) <> Exit 0 /\
+               s_fired s' = true /\ s_k s' = f_k ft.
+  Proof.
+    intros ft c fs st0 s0 R HK. unfold run in *.
+    destruct (exec None (MM c) (init fs)) as [r0 s00] eqn:E. inversion R; subst.
+    eapply exec_fires with (ft := ft) in E; [|simpl; lia].
+    destruct E as [s' [E' [F K]]]. rewrite E'. exists s'. split; [destruct (f_kind ft); reflexivity|].
+    split; [destruct (f_kind ft); discriminate|]. auto.
+  Qed.
+
+  (* a fault that fires at any boundary other than a write to / the close of the output leaves every file and
+     stdout untouched.  (Depends on fact_write_via = WritePath and nbformat serialising before it opens.) *)
+  Theorem fault_before_write_untouched : forall flt c fs st' s' e,
+    RUN flt c fs = (st', s') -> s_fired s' = true ->
+    hd_error (s_trace s') = Some e -> is_after_commit e = false ->
+    s_fs s' = fs /\ s_out s' = [].
+  Proof.
+    intros flt c fs st' s' e R F HD NA. unfold run in R.
+    destruct (exec flt (MM c) (init fs)) as [res s] eqn:E. inversion R; subst.
+    eapply safe_fault_untouched in E; eauto. apply safe_main.
+  Qed.
+
+  (* when the code itself fails (unreadable input, library exception, ...) nothing has been written *)
+  Theorem failure_untouched : forall flt c fs k s',
+    exec flt (MM c) (init fs) = (Aborted k, s') -> s_fired s' = false -> s_fs s' = fs /\ s_out s' = [].
+  Proof.
+    intros. eapply nf_failure_untouched in H; eauto. apply nf_main.
+  Qed.
+
+  (* ---------------- the git merge driver: output = the local file, never decisions mode *)
+  Theorem driver_exit0_complete : forall flt s b l r fs s',
+    RUND flt s b l r fs = (Exit 0, s') -> l <> devnull ->
+    exists nb nl_ nr m ds,
+      DEN fs b fact_base_on_empty_minimal nb /\ DEN fs l fact_local_on_empty_minimal nl_ /\
+      DEN fs r fact_remote_on_empty_minimal nr /\
+      LM s nb nl_ nr = Some (m, ds) /\ filter dconflict ds = [] /\
+      s_fs s' l = Content (FULL m) /\ (forall q, q <> l -> s_fs s' q = fs q).
+  Proof.
+    intros flt s b l r fs s' R ND. unfold run_driver in R. apply exit0_complete in R.
+    destruct R as [[L _]|R]; [simpl in L; contradiction|].
+    destruct R as [nb [nl_ [nr [m [ds [H1 [H2 [H3 [H4 [H5 H6]]]]]]]]]]. simpl in *.
+    exists nb, nl_, nr, m, ds. repeat (split; auto); destruct (H6 eq_refl) as [P Q]; auto.
+  Qed.
+
+  Theorem driver_fault_before_write_untouched : forall flt s b l r fs st' s' e,
+    RUND flt s b l r fs = (st', s') -> s_fired s' = true ->
+    hd_error (s_trace s') = Some e -> is_after_commit e = false -> s_fs s' = fs.
+  Proof.
+    intros. unfold run_driver in H. eapply fault_before_write_untouched in H; eauto. tauto.
+  Qed.
+End Props.
